@@ -52,8 +52,33 @@ def gen(rng, index, tier):
             raw.append(r)
         meta = {"family": "multicycle", "kind": "int", "n": len(els), "m": m}
         bound = rng.choice([2, 3, 3, 4, 80])
+    absent = rng.random() < 0.12
+    if absent:
+        # a component that cannot be all tied (a Condorcet cycle on A, plus rankings that tie A) next to elements Z;
+        # some rankings hold only Z, i.e. miss the whole component A: they weigh on A's pairs through B[5] / T[5] only
+        ids = list(range(5))
+        rng.shuffle(ids)
+        A, Z = ids[:3], ids[3:3 + rng.choice([1, 2])]
+        raw = []
+        for j in range(3):
+            r = [[e] for e in A[j:] + A[:j]]
+            if rng.random() < 0.6:
+                r = r + [[z] for z in Z]
+            raw.append(r)
+        for _ in range(rng.choice([1, 2, 3])):
+            raw.append([list(A)] + ([[z] for z in Z] if rng.random() < 0.4 else []))
+        for _ in range(rng.choice([1, 2, 3])):
+            raw.append([[z] for z in Z] if rng.random() < 0.6 else [list(Z)])
+        rng.shuffle(raw)
+        meta = {"family": "absent_component", "kind": "int", "n": 3 + len(Z), "m": len(raw)}
+        bound = rng.choice([2, 80, 80])
     case = {"dataset": raw, "scheme": partcommon.sparse_scheme(rng, "cyclic" if meta["family"] == "multicycle" else meta["family"]),
             "meta": meta, "bound": bound, "aux": rng.choice(AUX)}
+    if absent:
+        s8 = 8
+        p = rng.choice([4, 5, 6, 8])
+        case["scheme"] = {"b": [0, s8, s8, 0, s8, rng.choice([0, 0, 4, 8])], "t": [p, p, 0, p, p, rng.choice([0, 1, 2, 4, 8])],
+                          "scale": s8, "family": "b5t5"}
     if rng.random() < 0.4:
         case["cplex"] = "standin"
     return case
